@@ -60,6 +60,8 @@ func TestMain(m *testing.M) {
 			{ID: kfMixedJoin, Present: probeMixedHashJoin},
 			{ID: kfNullRange, Present: probeTypedNullRange},
 			{ID: kfGroupNulls, Present: probeGroupNullsOrder},
+			{ID: kfOwnIndex, Present: probeUpdateThroughOwnIndex},
+			{ID: kfLossyCmp, Present: probeLossyIntFloatCompare},
 		},
 	})
 }
@@ -473,6 +475,79 @@ func probeGroupNullsOrder() (bool, string) {
 	return false, ""
 }
 
+// probeUpdateThroughOwnIndex: in a transaction that already inserted rows, an UPDATE scanning the
+// index on the column it sets panics (new entries land before the cursor) or skips a row.
+func probeUpdateThroughOwnIndex() (present bool, detail string) {
+	db, done, err := probeDB(sqlgen.DBOpts{},
+		"CREATE TABLE t (id INTEGER, c INTEGER, PRIMARY KEY id)",
+		"CREATE INDEX ON t (c)")
+	if err != nil {
+		return false, ""
+	}
+	defer done()
+	for i := 1; i <= 17; i++ {
+		if db.Exec(fmt.Sprintf("INSERT INTO t (id, c) VALUES (%d, %d)", i, i+100), nil) != nil {
+			return false, ""
+		}
+	}
+	for _, v := range []int{1, 1000} {
+		tx, err := db.Begin()
+		if err != nil {
+			return false, ""
+		}
+		if tx.Exec("INSERT INTO t (id, c) VALUES (1001, 103), (1002, 50), (1003, 2000), (1004, 115)", nil) != nil {
+			return false, ""
+		}
+		stmt := fmt.Sprintf("UPDATE t SET c = %d WHERE c <> %d USE INDEX ON (c)", v, v)
+		panicked := func() (p bool) {
+			defer func() {
+				if r := recover(); r != nil {
+					p, present = true, true
+					detail = fmt.Sprintf("17 committed rows, in a transaction after INSERT of 4 rows: %s panics: %v", stmt, r)
+				}
+			}()
+			err = tx.Exec(stmt, nil)
+			return false
+		}()
+		if panicked {
+			return present, detail
+		}
+		if err != nil {
+			return false, ""
+		}
+		r, qerr := tx.Query(fmt.Sprintf("SELECT COUNT(*) FROM t USE INDEX ON (id) WHERE c <> %d", v), nil)
+		tx.Rollback()
+		if qerr == nil && r.Rows[0][0].I != 0 {
+			return true, fmt.Sprintf("17 committed rows, in a transaction after INSERT of 4 rows: %s leaves %d row(s) with c <> %d", stmt, r.Rows[0][0].I, v)
+		}
+	}
+	return false, ""
+}
+
+// probeLossyIntFloatCompare: INTEGER vs FLOAT is compared after converting the integer to a float
+// (MaxInt64 "equals" 2^63), while the hash join matches keys exactly: the same equality conjunct
+// holds in the nested-loop plan and fails in the hash-join plan.
+func probeLossyIntFloatCompare() (bool, string) {
+	db, done, err := probeDB(sqlgen.DBOpts{},
+		"CREATE TABLE a (id INTEGER, x INTEGER, PRIMARY KEY id)",
+		"CREATE TABLE t (id INTEGER, y INTEGER, c INTEGER NOT NULL, PRIMARY KEY id)",
+		"INSERT INTO a (id, x) VALUES (1, 1)",
+		"INSERT INTO t (id, y, c) VALUES (1, 1, 9223372036854775807)")
+	if err != nil {
+		return false, ""
+	}
+	defer done()
+	x, err1 := db.Query("SELECT a.id, t.id FROM a INNER JOIN t ON a.x = t.y AND t.c = 9223372036854775808.0", nil)
+	y, err2 := db.Query("SELECT a.id, t.id FROM a INNER JOIN (SELECT * FROM t) AS t ON a.x = t.y AND t.c = 9223372036854775808.0", nil)
+	if err1 != nil || err2 != nil {
+		return false, ""
+	}
+	if d := sqlgen.DiffMultiset(x, y); d != "" {
+		return true, fmt.Sprintf("t.c = 9223372036854775807: a JOIN t ON a.x = t.y AND t.c = 9223372036854775808.0 returns %v; with t as a derived table (nested loop) %v", x.Keys(), y.Keys())
+	}
+	return false, ""
+}
+
 // probeInTxDup: two rows written by the open transaction with the same value in an indexed
 // column share one transient index entry; the index scan inside the transaction sees one of them.
 func probeInTxDup() (bool, string) {
@@ -548,7 +623,7 @@ func queryOpts() sqlgen.QueryOpts {
 	if vk.Excluded(kfCountSubq) {
 		qo.NoCountStarSubquery = true
 	}
-	if vk.Excluded(kfBigMixed) {
+	if vk.Excluded(kfBigMixed) || vk.Excluded(kfLossyCmp) {
 		qo.NoBigMixedCompare = true
 	}
 	if vk.Excluded(kfHashResidual) {
@@ -575,7 +650,12 @@ func queryOpts() sqlgen.QueryOpts {
 		case strings.HasPrefix(what, "COUNT(*) with a subquery"):
 			vk.CountExcluded(kfCountSubq)
 		case strings.HasPrefix(what, "INTEGER/FLOAT comparison beyond"):
-			vk.CountExcluded(kfBigMixed)
+			if vk.Excluded(kfBigMixed) {
+				vk.CountExcluded(kfBigMixed)
+			}
+			if vk.Excluded(kfLossyCmp) {
+				vk.CountExcluded(kfLossyCmp)
+			}
 		case strings.HasPrefix(what, "non-equi join"):
 			vk.CountExcluded(kfHashResidual)
 		case strings.HasPrefix(what, "INTEGER = FLOAT"):
@@ -965,6 +1045,17 @@ func (e *env) classify(q *sqlgen.Query, outs []outcome, interesting map[string]b
 			c.Label("q-global-aggregate")
 		} else {
 			c.Label("q-simple")
+		}
+	}
+	if q.Shape == "eq-prefix" {
+		// WHERE fixes the leading column(s) of a composite index, ORDER BY / GROUP BY name other columns
+		c.Label("q-eq-prefix-of-composite-index")
+		vk.AddLabel("eq-prefix-queries", 1)
+		for _, o := range outs {
+			if o.v.name == "plain" && o.err == nil && o.res.Index != "" && !o.res.PK && len(o.res.Rows) >= 2 {
+				c.Label("q-eq-prefix-served-by-composite-index-with->=2-rows")
+				vk.AddLabel("eq-prefix-queries-served-by-the-composite-index-with->=2-rows", 1)
+			}
 		}
 	}
 	if q.Distinct {
